@@ -191,12 +191,21 @@ says NXDOMAIN — the name is not below a delegation or DNAME, is not an empty
 non-terminal, owns nothing, and the wildcard at its closest encloser neither
 exists nor is an empty non-terminal.  (Before commit 4841eb0 this held only
 under record-level hypotheses; the function now tests them itself:
-`nsecMisusedFor`, `nsecProvesENT`.)  The root zone is excluded because for a
-closest encloser "." the function skips the wildcard proof. -/
-theorem nameError_nsec_sound (z : Zone) (hz : z.WF) (hroot : z.apex ≠ []) (s : List Nsec)
+`nsecMisusedFor`, `nsecProvesENT`.)  The only hypothesis left concerns the
+ROOT zone: for a closest encloser "." the function skips the wildcard proof
+(it holds that `*.` cannot exist), so a root zone must indeed have no `*.`
+owner or empty non-terminal; for every other zone the hypothesis is vacuous
+(`nameError_nsec_sound_nonroot`). -/
+theorem nameError_nsec_sound (z : Zone) (hz : z.WF) (hroot : z.apex = [] → z.inTree [star] = false) (s : List Nsec)
     (hs : SetOK z s) (q : Name) (hq : z.apex <+: q) (t : Nat)
     (h : verifyNameErrorNSEC q (filterToZone z.apex s) = .ok ()) : z.answerClass q t = .nxdomain :=
   nameError_core hz hroot (filter_genuine hz hs) hq t h
+
+/-- every zone other than the root: no side condition at all. -/
+theorem nameError_nsec_sound_nonroot (z : Zone) (hz : z.WF) (hroot : z.apex ≠ []) (s : List Nsec)
+    (hs : SetOK z s) (q : Name) (hq : z.apex <+: q) (t : Nat)
+    (h : verifyNameErrorNSEC q (filterToZone z.apex s) = .ok ()) : z.answerClass q t = .nxdomain :=
+  nameError_nsec_sound z hz (fun e => absurd e hroot) s hs q hq t h
 
 /-- **`VerifyNODATANSEC` is sound** (full strength): exact-owner and wildcard
 NODATA, CNAME bit, DS-vs-SOA rule, and a delegation point's record only for
@@ -380,8 +389,12 @@ example : wzone.answerClass [L "example", L "b"] 1 = .nxdomain :=
   (aggressive_nsec_sound wzone wzone_wf wzone.chain wzone_chain_ok [L "example", L "b"] 1 1 .nxdomain [0]
     (by decide)).2.2.1 rfl
 example : wzone.answerClass [L "example", L "b"] 1 = .nxdomain :=
-  nameError_nsec_sound wzone wzone_wf (by decide) wzone.chain wzone_chain_ok [L "example", L "b"]
+  nameError_nsec_sound_nonroot wzone wzone_wf (by decide) wzone.chain wzone_chain_ok [L "example", L "b"]
     (by decide) 1 (by decide)
+-- the root zone `.` with one TLD: NXDOMAIN for `b.` with closest encloser "." (no `*.` in the zone)
+example : ({ apex := [], nodes := [⟨[], [2, 6, 46, 47, 48]⟩, ⟨[L "c"], [2, 46, 47]⟩] } : Zone).answerClass [L "b"] 1 = .nxdomain :=
+  nameError_nsec_sound { apex := [], nodes := [⟨[], [2, 6, 46, 47, 48]⟩, ⟨[L "c"], [2, 46, 47]⟩] }
+    (by constructor <;> decide) (fun _ => by decide) _ (fun _ hr => Or.inl hr) [L "b"] (by decide) 1 (by decide)
 -- … NODATA for `zzz.example. AAAA`, and the insecure delegation `sub.example.`
 example : wzone.answerClass [L "example", L "zzz"] 28 = .nodata :=
   nodata_nsec_sound wzone wzone_wf wzone.chain wzone_chain_ok [L "example", L "zzz"] (by decide) 28
@@ -460,6 +473,42 @@ theorem nsec3_nameerror_sound (all hashed : List Name) (H : Name → Hash) (reco
       findCoverer (fun n => some (H n)) ring (q.take (k + 1)) = .ok nc ∧
       secure = (nc.flags % 2 == 0) ∧ (secure = true → q ∉ all) :=
   verifyNameError_sound hgen hclosed h
+
+/-- **NSEC3 wildcard NODATA, arbitrary hash**: when no record matches the
+question name, a SECURE NODATA verdict of `VerifyNODATAForZoneWithWork` rests
+on a validated closest encloser whose next-closer name is covered by a span
+without Opt-Out — so the question name itself is not in the zone's tree (no
+owner, no empty non-terminal, no delegation at or above it below the
+encloser); the data the answer denies can only be the wildcard's. -/
+theorem nsec3_nodata_nomatch_sound (all hashed : List Name) (H : Name → Hash) (records : List Nsec3)
+    (hgen : ∀ r ∈ records, usable r = true → RecGenuine all hashed H r)
+    (signer q : Name) (t qclass : Nat)
+    (hclosed : ∀ n ∈ all, ∀ j, signer.length ≤ j → j ≤ n.length → n.take j ∈ all)
+    (ring : Ring) (hprep : prepare records signer = .ok ring)
+    (hnomatch : ∀ m, findMatching (fun n => some (H n)) ring q ≠ .ok m)
+    (h : verifyNODATA (fun n => some (H n)) records signer q t qclass = .ok true) : q ∉ all :=
+  verifyNODATA_nomatch_sound hgen hclosed hprep hnomatch h
+
+/-- **NSEC3 NXDOMAIN over the sorted ring, end to end** (no Opt-Out omission).
+`names`: every name of the zone's tree, closed under ancestors down to the
+signer; the ring is what a signer builds — their hashes, sorted, each
+pointing to its successor, the last wrapping around — and the hash is any
+function that does not collide on those names (RFC 5155 §7.1).  For every
+selection of records copied from that ring (flags and bitmaps free, unusable
+records ignored) and EVERY question name (colliding or not): an accepted
+NXDOMAIN, secure or not, is for a name outside the tree; likewise a
+synthesised one. -/
+theorem nsec3_nxdomain_sound_sorted_ring (names : List Name) (H : Name → Hash)
+    (hd : (names.map H).Pairwise (· ≠ ·)) (records : List Nsec3)
+    (hrec : ∀ r ∈ records, FromRing names H r) (signer q : Name) (t qclass : Nat)
+    (hclosed : ∀ n ∈ names, ∀ j, signer.length ≤ j → j ≤ n.length → n.take j ∈ names) :
+    (verifyNameError (fun n => some (H n)) records signer q qclass = .ok true → q ∉ names) ∧
+    (∀ p, evaluateAggressiveNSEC3 (fun n => some (H n)) q t qclass signer records = .ok (.nxdomain, p) → q ∉ names) := by
+  have hgen : ∀ r ∈ records, RecGenuine names names H r := fun r hr => fromRing_genuine names H hd r (hrec r hr)
+  refine ⟨?_, fun p h => evaluateAggressiveNSEC3_nx_sound hgen hclosed h⟩
+  intro h
+  obtain ⟨_, _, _, _, _, _, _, _, _, hq⟩ := verifyNameError_sound (fun r hr _ => hgen r hr) hclosed h
+  exact hq rfl
 
 /-- **"No DS, the delegation is insecure" from NSEC3** (`VerifyDelegationForZoneWithWork`,
 RFC 5155 §8.9): accepted only (a) from the record matching the name itself,
@@ -587,6 +636,26 @@ example : verifyNODATA (fun n => some (toyH n)) [toyRec] [L "z"] [L "z"] 1 1 = .
     (∃ ring m, prepare [toyRec] [L "z"] = .ok ring ∧ findMatching (fun n => some (toyH n)) ring [L "z"] = .ok m) := by
   refine ⟨by decide, ?_⟩
   exact ⟨{ zone := [L "z"], cls := 1, entries := [toEntry (0, toyRec)] }, toEntry (0, toyRec), by decide, by decide⟩
+-- non-vacuity of `nsec3_nodata_nomatch_sound`: a two-record toy ring `z.` (hash [1], types incl. the wildcard's)
+-- and `*.z.` (hash [2]) answers `a.z. AAAA` with a secure wildcard NODATA; `a.z.` has no matching record
+def toyRecW : Nsec3 := { toyRec with owner := [L "z", [2]], ownerHash := some [2], next := some [1], types := [1, 46] }
+def toyRecA : Nsec3 := { toyRec with next := some [2] }
+example : verifyNODATA (fun n => some (if n = [L "z", L "a"] then [1, 5] else toyH n)) [toyRecA, toyRecW]
+    [L "z"] [L "z", L "a"] 28 1 = .ok true := by decide
+-- non-vacuity of `nsec3_nxdomain_sound_sorted_ring`: the toy record IS the sorted ring of the one-name zone
+example : FromRing [[L "z"]] toyH toyRec :=
+  ⟨{ owner := [[1]], next := [[1]], cls := 1, types := [] }, by decide, [1], [1], rfl, rfl, rfl, rfl⟩
+example : [L "z", L "a"] ∉ [[L "z"]] :=
+  (nsec3_nxdomain_sound_sorted_ring [[L "z"]] toyH (by decide) [toyRec]
+    (fun r hr => by
+      rw [List.mem_singleton] at hr; subst hr
+      exact ⟨{ owner := [[1]], next := [[1]], cls := 1, types := [] }, by decide, [1], [1], rfl, rfl, rfl, rfl⟩)
+    [L "z"] [L "z", L "a"] 1 1
+    (by
+      intro n hn j h1 h2
+      rw [List.mem_singleton] at hn; subst hn
+      have : j = 1 := by simp at h1 h2; omega
+      subst this; simp)).1 (by decide)
 example : RecGenuine [[L "z"]] [[L "z"]] toyH toyRec where
   gap := by
     intro oh nh h1 h2 n hn
